@@ -1678,6 +1678,8 @@ class Array:
         pipe_labels = [self._combine_leg_labels([labels[c] for c in cl]) for cl in combine_legs]
         for na, p, plab in zip(new_axes, pipes, pipe_labels):
             labels[na : na + p.nlegs] = [plab]
+        # the '?#' are only placeholders inside the pipe labels: non-combined legs without label stay unlabeled
+        labels = [None if (lbl is not None and lbl[0] == '?') else lbl for lbl in labels]
 
         res = Array(legs, self.dtype, self.qtotal, labels)
 
